@@ -28,6 +28,6 @@ def one(d):
 dirs = sorted(glob.glob(os.path.join(V, "seeded", "C*_*")))
 if len(sys.argv) > 1:
     dirs = [d for d in dirs if os.path.basename(d) in sys.argv[1:]]
-with concurrent.futures.ThreadPoolExecutor(3) as ex:
+with concurrent.futures.ThreadPoolExecutor(int(os.environ.get("RECHECK_JOBS", "3"))) as ex:
     for name, det, st in ex.map(one, dirs):
         print(name, det, st, flush=True)
